@@ -233,9 +233,9 @@ Inductive frame :=
 | FConfRsp (id scid result sugg : Z)   (* sugg: the options carry 0 nothing usable, 1 an MTU / FCS-off value, 2 FCS on *)
 | FDiscReq (id dcid scid : Z)
 | FDiscRsp (id dcid scid : Z)
-| FLeReq (id psm scid credits : Z)
+| FLeReq (id psm scid credits : Z) (okp : bool)   (* okp: MTU and MPS of the request are within the limits *)
 | FLeRsp (id dcid credits result : Z)
-| FEnhReq (id psm credits : Z) (scids : list Z)
+| FEnhReq (id psm credits : Z) (scids : list Z) (okp : bool)
 | FEnhRsp (id credits result : Z) (dcids : list Z)
 | FCredit (id cid credits : Z)
 | FReject (id : Z)
@@ -336,6 +336,8 @@ Definition R_PENDING := 1.
 Definition R_NO_PSM := 2.
 Definition R_NO_RESOURCES := 4.
 Definition R_CID_IN_USE := 10.
+Definition R_LE_BAD_PARAMS := 11.     (* CONNECTION_REFUSED_UNACCEPTABLE_PARAMETERS *)
+Definition R_ENH_BAD_PARAMS := 12.    (* ALL_CONNECTIONS_REFUSED_INVALID_PARAMETERS *)
 Definition CONF_UNACCEPTABLE := 1.
 Definition CONF_UNKNOWN_OPTIONS := 3.
 
@@ -438,7 +440,7 @@ Definition open_le (m : mgr) (h psm credits : Z) : mgr * list frame :=
           let w := wuid m3 in
           let m4 := wnew m3 O_PENDING WOpen h u in
           let m5 := hupd m4 u (fun c => set_ref (set_st (set_cw c (Some w)) SConnecting) i) in
-          (with_reqs m5 (tset h i scid (m_reqs m5)), [FLeReq i psm scid credits])
+          (with_reqs m5 (tset h i scid (m_reqs m5)), [FLeReq i psm scid credits true])
       end
   end.
 
@@ -450,7 +452,7 @@ Definition open_enh (m : mgr) (h psm n credits : Z) : mgr * list frame :=
       let w := wuid m in
       let m1 := wnew (next_id m h) O_PENDING WOpenEnh h i in
       let m2 := with_pend m1 (tset h i (w, []) (m_pend m1)) in
-      (new_enh_chans m2 h i scids, [FEnhReq i psm credits scids])
+      (new_enh_chans m2 h i scids, [FEnhReq i psm credits scids true])
   end.
 
 Definition open_cl (m : mgr) (h psm mode : Z) : mgr * list frame :=
@@ -508,11 +510,12 @@ Definition do_grant (m : mgr) (u n : Z) : mgr * list frame :=
 (* ------------------------------------------------------------------ received frames *)
 Definition srv_get (psm : Z) (l : list (Z * Z)) : option Z := aget psm l.
 
-Definition recv_le_req (m : mgr) (h id psm scid credits : Z) : mgr * list frame :=
+Definition recv_le_req (m : mgr) (h id psm scid credits : Z) (okp : bool) : mgr * list frame :=
   match srv_get psm (m_lesrv m) with
   | None => (m, [FLeRsp id 0 0 R_NO_PSM])
   | Some srv_credits =>
-      if memz scid (tkeys h (m_le m)) then (m, [FLeRsp id 0 0 R_CID_IN_USE])
+      if negb okp then (m, [FLeRsp id 0 0 R_LE_BAD_PARAMS])        (* MTU / MPS below the minimum *)
+      else if memz scid (tkeys h (m_le m)) then (m, [FLeRsp id 0 0 R_CID_IN_USE])
       else match find_free_le (tkeys h (m_chs m)) with
            | None => (m, [FLeRsp id 0 0 R_NO_RESOURCES])
            | Some local =>
@@ -553,11 +556,12 @@ Definition recv_le_rsp (m : mgr) (h id dcid credits result : Z) : mgr * list fra
 Fixpoint any_mem (xs ys : list Z) : bool :=
   match xs with [] => false | x :: xs' => memz x ys || any_mem xs' ys end.
 
-Definition recv_enh_req (m : mgr) (h id psm credits : Z) (scids : list Z) : mgr * list frame :=
+Definition recv_enh_req (m : mgr) (h id psm credits : Z) (scids : list Z) (okp : bool) : mgr * list frame :=
   match srv_get psm (m_lesrv m) with
   | None => (m, [FEnhRsp id 0 R_NO_PSM []])
   | Some srv_credits =>
-      if any_mem scids (tkeys h (m_le m)) then (m, [FEnhRsp id 0 R_CID_IN_USE []])
+      if negb okp then (m, [FEnhRsp id 0 R_ENH_BAD_PARAMS []])
+      else if any_mem scids (tkeys h (m_le m)) then (m, [FEnhRsp id 0 R_CID_IN_USE []])
       else match find_free_le_n (tkeys h (m_chs m)) (length scids) with
            | [] => (m, [FEnhRsp id srv_credits R_NO_RESOURCES []])
            | locals =>
@@ -760,9 +764,9 @@ Definition recv (m : mgr) (h : Z) (f : frame) : mgr * list frame :=
   | FConfRsp id scid result sugg => recv_conf_rsp m h id scid result sugg
   | FDiscReq id dcid scid => recv_disc_req m h id dcid scid
   | FDiscRsp id dcid scid => recv_disc_rsp m h id dcid scid
-  | FLeReq id psm scid credits => recv_le_req m h id psm scid credits
+  | FLeReq id psm scid credits okp => recv_le_req m h id psm scid credits okp
   | FLeRsp id dcid credits result => recv_le_rsp m h id dcid credits result
-  | FEnhReq id psm credits scids => recv_enh_req m h id psm credits scids
+  | FEnhReq id psm credits scids okp => recv_enh_req m h id psm credits scids okp
   | FEnhRsp id credits result dcids => recv_enh_rsp m h id credits result dcids
   | FCredit id cid credits => recv_credit m h cid credits
   | FReject _ => (m, [])
@@ -950,7 +954,7 @@ Definition frame_ok (m : mgr) (h : Z) (f : frame) : bool :=
               && negb (any_mem dcids (tkeys h (m_le m))))
       | None => true
       end
-  | FEnhReq _ _ _ scids => nodupz scids
+  | FEnhReq _ _ _ scids _ => nodupz scids
   | FConnRsp _ _ scid _ => not_le_target m h scid
   | FConfReq _ dcid _ _ => not_le_target m h dcid
   | FConfRsp _ scid _ sugg =>
